@@ -82,6 +82,7 @@ def run(ctx):
     ctx.rule('C07.R2', 'snapshot providers compute content and version group inside one mdib_lock region')
     ctx.rule('C07.R3', 'the transaction manager holds mdib_lock around yield, commit and version write; a single '
                        'mdib_lock object per MDIB')
+    _fresh_version_group(ctx)
     regs = [r for r in registrations(repo) if r[2] in GET_ACTIONS]
     ctx.floor('C07.R1', len(regs), 4, 'Get handlers registered with register_post_handler(DispatchKey(actions.Get*')
     for cls, _reg_fi, action, _msg, hname, _call in regs:
@@ -256,6 +257,31 @@ def _node_of(g, expr):
             if a is expr:
                 return n
     return None
+
+
+def _fresh_version_group(ctx):
+    """R5: the version group a reader captures is a value of its own: MdibBase.mdib_version_group builds a new MdibVersionGroup
+    (or the class is frozen).  A cached instance that is refreshed on every read changes under the hands of a Get handler that
+    captured it inside the lock and stamps the response after releasing it."""
+    repo = ctx.repo
+    ctx.rule('C07.R5', 'the version group handed out by the MDIB is a fresh object (or immutable)')
+    vg = repo.cls('sdc11073.mdib.mdibbase.MdibVersionGroup')
+    frozen = any('frozen=True' in ast.unparse(d) for d in vg.node.decorator_list)
+    prop = repo.func('sdc11073.mdib.mdibbase.MdibBase.mdib_version_group')
+    g = cfg_of(prop)
+    leaves = []
+    for n in g.nodes:
+        if n.kind == 'return' and n.stmt.value is not None:
+            leaves += [leaf for _f, leaf in g.value_cases(n, n.stmt.value)]
+    fresh = bool(leaves) and all(isinstance(x, ast.Call) and call_name(x) == 'MdibVersionGroup' for x in leaves)
+    writes = [n for n in g.real_nodes() if n.kind == 'stmt' and isinstance(n.stmt, (ast.Assign, ast.AugAssign))
+              and any(isinstance(t, (ast.Attribute, ast.Tuple)) for t in getattr(n.stmt, 'targets', [getattr(n.stmt, 'target', None)]))]
+    ok = frozen or (fresh and not writes)
+    ctx.ob('C07.R5', 'version group is a fresh value', ok,
+           'MdibBase.mdib_version_group returns a newly built MdibVersionGroup on every read' if ok else
+           f'MdibBase.mdib_version_group returns {[unparse(x) for x in leaves]} - an object that later reads change: a Get '
+           f'handler that captured it inside mdib_lock stamps its response with a LATER MdibVersion than the content it '
+           f'collected', fi=prop, witness={'returns': [unparse(x) for x in leaves], 'frozen dataclass': frozen})
 
 
 def _snapshot_callee(call, assigns):
